@@ -20,15 +20,15 @@ stage = [
         dict(lit='#       include <cds/compiler/gcc/amd64/bitop.h>', to='#       include <vx_asm_bitop.h>', count=1,
              why='inline asm (bsr/bsf) invisible to CBMC: assumed contract c_msb64nz')]),
     dict(kind='fragment', path='cds/intrusive/details/split_list_base.h', name='regular_hash',
-         anchor=r'template <typename BitReversalAlgo>\s*static inline size_t regular_hash\( size_t nHash \)', rewrites=FUNCTOR_TMP),
+         anchor=r'template <typename BitReversalAlgo>\s*static inline size_t regular_hash\(\s*size_t \w+\s*\)', rewrites=FUNCTOR_TMP),
     dict(kind='fragment', path='cds/intrusive/details/split_list_base.h', name='dummy_hash',
-         anchor=r'template <typename BitReversalAlgo>\s*static inline size_t dummy_hash\( size_t nHash \)', rewrites=FUNCTOR_TMP),
+         anchor=r'template <typename BitReversalAlgo>\s*static inline size_t dummy_hash\(\s*size_t \w+\s*\)', rewrites=FUNCTOR_TMP),
 ]
 decl_rules = [dict(path='cds/details/size_t_cast.h', re=r'struct size_t_unsigned<8>\s*\{\s*typedef uint64_t type;', count=1),
               dict(path='cds/details/size_t_cast.h', re=r'return static_cast< size_t_unsigned<sizeof\( size_t \)>::type>\( n \);', count=1)]
 for t, f in FILES.items():
-    stage.append(dict(kind='fragment', path=f, name='bucket_no_' + t, anchor=r'size_t bucket_no\( size_t nHash \) const'))
-    stage.append(dict(kind='fragment', path=f, name='parent_bucket_' + t, anchor=r'static size_t parent_bucket\( size_t nBucket \)'))
+    stage.append(dict(kind='fragment', path=f, name='bucket_no_' + t, anchor=r'size_t bucket_no\(\s*size_t \w+\s*\) const'))
+    stage.append(dict(kind='fragment', path=f, name='parent_bucket_' + t, anchor=r'static size_t parent_bucket\(\s*size_t \w+\s*\)'))
     decl_rules.append(dict(path=f, re=r'atomics::atomic<size_t>\s+m_nBucketCountLog2;', count=1))
 
 
